@@ -297,3 +297,4 @@ func specMidNumber(mid string) int {
 
 	return n
 }
+
